@@ -34,6 +34,7 @@ REQUIRED = [
     "abs_is_sabs", "gen_abs", "gen_sign", "gen_lerp", "gen_ulerp", "gen_lerpfactor", "gen_clamp", "gen_cmp", "gen_cmpt", "gen_iszero",
     "gen_equal", "gen_equalWithAbsError", "gen_equalWithRelError", "gen_sinx_over_x", "sqrt3_literal", "gen_solveLinear", "gen_solveQuadratic",
     "gen_solveNormalizedCubic", "gen_solveCubic", "gen_lerpfactor_inverts_lerp", "gen_solveQuadratic_two_roots", "gen_solveNormalizedCubic_one_root",
+    "solveNormalizedCubic_complex_any_sqrt3", "gen_solveNormalizedCubic_three_literal", "nonvacuity_gen_three_literal",
     "divs_mods_truncating", "divp_modp_euclidean", "divs_mods_int32", "divp_modp_int32",
     "divp_former_defect_fixed",
     "abs_is_abs", "sign_is_sign", "cmp_is_three_way", "cmpt_is_tolerant_cmp", "iszero_iff", "equal_iff",
@@ -355,7 +356,7 @@ def check_floats(cx):
                             found = True
                             break
                 chk.fail("corr:f32:" + op, key, "%s: model and implementation differ" % op, rep, found)
-        chk.exhaustive = True
+        pass    # `exhaustive` stays False: doubles, ints, scalars, roots and colour are sampled (see extra exhaustive_parts)
     # (2b) the float boundary subset on the UBSan build: no sanitizer report, same answers
     u = cx.sanitized(lines, "f32") if a is not None else None
     if u is not None:
@@ -488,6 +489,14 @@ def check_ints(cx):
     vals = int_values(chk.rng)
     pairs = [(x, y) for x in vals for y in vals if y != 0]
     pairs.append((-5, INT_MAX))
+    ngrid = len(pairs)
+    # EXHAUSTIVE small scope: every pair of [-130, 130]^2 (y != 0), and the int extremes against every small operand, both ways
+    small = [(x, y) for x in range(-130, 131) for y in range(-130, 131) if y != 0]
+    ext = list(range(INT_MIN, INT_MIN + 9)) + list(range(INT_MAX - 8, INT_MAX + 1))
+    edge = [(x, y) for x in ext for y in range(-64, 65) if y != 0] + [(x, y) for x in range(-64, 65) for y in ext] + [(x, y) for x in ext for y in ext]
+    seen = set(pairs)
+    pairs += [p for p in small + edge if p not in seen]
+    cx.hit("int:exhaustive-small-scope-pairs", len(small)); cx.hit("int:extremes-grid-pairs", len(edge))
     a, b = cx.both(["int %d %d" % p for p in pairs], "int", ubsan=False)
     rc, c = run_lines(DRV, ["ints %d %d" % p for p in pairs], "ints")
     if a is None or rc != 0 or len(c) != len(pairs):
@@ -570,10 +579,29 @@ def check_ints(cx):
                      "%s(%d,%d): no negation overflows and the result %s is an int, but an int intermediate overflows (undefined behaviour: %s); "
                      "the unsanitised build returns %s only because the overflow wraps" % (n, x, y, spec, ans[3:], plain), rep, True)
     chk.count(4 * len(pairs), 4 * len(pairs))
-    chk.oblige("corr:int:model=euclid/trunc-spec(%d pairs)" % len(pairs), "correspondence", not model_bad)
+    chk.oblige("corr:int:model=euclid/trunc-spec(%d pairs: boundary grid + ALL of [-130,130]^2 + int extremes x [-64,64] both ways)" % len(pairs),
+               "correspondence", not model_bad)
     chk.oblige("corr:int:impl=model=spec-under-no-overflow-guard", "correspondence", not impl_bad)
     chk.oblige("spec:int:divp/modp-under-the-property's-negation-guard", "correspondence", not neg_guard_bad)
     chk.extra["int_excluded_inputs"] = excluded
+    # all (x, y) of [-2048, 2048]^2, y != 0, inside the harness against 64-bit definitional specifications (plain and sanitised builds)
+    for binr, nm in ((cx.binary, "plain"), (cx.ubsan, "ubsan")):
+        if not binr:
+            continue
+        rc, o = lib.sh([binr, "ints_small", "2048"], timeout=600)
+        w = o.split()
+        oks = rc == 0 and len(w) == 3 and w[0] == "0"
+        chk.oblige("spec:int:divs/mods/divp/modp = truncating / Euclidean division for ALL pairs of [-2048,2048]^2, y != 0 (%s build, 16,781,312 pairs x 4)" % nm,
+                   "correspondence", oks, None if oks else o[-300:])
+        chk.count(4 * 4097 * 4096, 4 * 4097 * 4096)
+        if not oks:
+            rep = {"output": o[-300:], "replay_cmd": "%s ints_small 2048" % os.path.relpath(binr, lib.VERIF)}
+            if rc == 0 and len(w) == 3:
+                rep.update({"mismatches": int(w[0]), "first_x": int(w[1]), "first_y": int(w[2]), "replay_cmd": cx.replay_cmd("int %s %s" % (w[1], w[2]))})
+                cx.spec_fail.setdefault("int", rep)
+            chk.fail("spec:int:divs/mods/divp/modp = truncating / Euclidean division for ALL pairs", "fun_corr:int:small-scope-sweep:%s" % nm,
+                     "divs/mods/divp/modp differ from their definitions on small operands (first pair x=%s, y=%s)" % (w[1] if len(w) == 3 else "?", w[2] if len(w) == 3 else "?"),
+                     rep, rc == 0 and len(w) == 3)
     for n, x, y, m, s in model_bad[:3]:
         chk.fail("corr:int", "model:%s:x=%d,y=%d" % (n, x, y), "unbounded model differs from the specification",
                  {"function": n, "x": x, "y": y, "model": m, "specification": s}, True)
@@ -697,8 +725,10 @@ def check_scalars(cx):
         chk.fail("spec:lerpfactor", "fun_corr:lerpfactor<%s>:%s" % ("double" if meta[i][0] == "sd" else "float", what.split(" ")[0]),
                  "lerpfactor (m=%r, a=%r, b=%r) = %r: %s" % (meta[i][3], meta[i][1], meta[i][2], lf, what), rep, True)
 
-    # ---- residue on the REAL code: lerpfactor (lerp (a, b, t), a, b) - t
-    for ty, h, rnd, dec, bound in (("sd", hd, float, lambda tok: u2d(int(tok, 16)), 1e-9), ("sf", hf, tof, lambda tok: u2f(int(tok, 16)), 5e-2)):
+    # ---- residue on the REAL code: lerpfactor (lerp (a, b, t), a, b) - t, in units of its conditioning eps (|a| + |b| + |m|) / |b - a|
+    # (clean-tree maximum 1.3 double / 1.2 float over 5 seeds; a reordering such as m/(b-a) - a/(b-a) exceeds it)
+    for ty, h, rnd, dec in (("sd", hd, float, lambda tok: u2d(int(tok, 16))), ("sf", hf, tof, lambda tok: u2f(int(tok, 16)))):
+        ep = EPS["d" if ty == "sd" else "f"]
         trips = []
         while len(trips) < 1500:
             x, y, t = rnd(rng.uniform(-100, 100)), rnd(rng.uniform(-100, 100)), rnd(rng.uniform(0, 1))
@@ -706,20 +736,24 @@ def check_scalars(cx):
                 trips.append((x, y, t))
         rc, o1 = run_lines(cx.binary, ["%s %s %s %s" % (ty, h(x), h(y), h(t)) for x, y, t in trips], "lf1")
         rc2, o2 = run_lines(cx.binary, ["%s %s %s %s" % (ty, h(x), h(y), l.split()[2]) for (x, y, t), l in zip(trips, o1)], "lf2") if rc == 0 else (1, [])
-        worst, wat = 0.0, None
+        worst, wat, worst_abs = 0.0, None, 0.0
         if rc == 0 and rc2 == 0 and len(o2) == len(trips):
-            for (x, y, t), l in zip(trips, o2):
+            for (x, y, t), l1, l in zip(trips, o1, o2):
+                m = dec(l1.split()[2])
                 e = abs(dec(l.split()[4]) - t)
-                if not e <= worst:
-                    worst, wat = e, (x, y, t)
-        okr = wat is not None and worst <= bound
-        chk.residues["lerpfactor(lerp(a,b,t),a,b)-t on the real code (%s, |b-a|>=1e-3, |a|,|b|<=100, MEASURED)" % ("double" if ty == "sd" else "float")] = {
-            "max_abs": worst, "bound": bound, "at": wat}
-        chk.oblige("residue:lerpfactor inverts lerp on the real code (%s)" % ("double" if ty == "sd" else "float"), "residue", okr)
+                q = e / (ep * (abs(x) + abs(y) + abs(m)) / abs(y - x))
+                worst_abs = max(worst_abs, e)
+                if not q <= worst:
+                    worst, wat = q, (x, y, t)
+        okr = wat is not None and worst <= LFBOUND
+        tn = "double" if ty == "sd" else "float"
+        chk.residues["lerpfactor(lerp(a,b,t),a,b)-t on the real code (%s), in units of eps (|a|+|b|+|m|)/|b-a| (MEASURED)" % tn] = {
+            "max": worst, "bound": LFBOUND, "at": wat, "max_abs": worst_abs}
+        chk.oblige("residue:lerpfactor inverts lerp on the real code to %g eps x conditioning (%s)" % (LFBOUND, tn), "residue", okr)
         chk.count(len(trips), len(trips))
         if not okr:
-            chk.fail("residue:lerpfactor inverts lerp", "fun_corr:lerpfactor(lerp)<%s>:residue" % ("double" if ty == "sd" else "float"),
-                     "lerpfactor (lerp (a, b, t), a, b) differs from t by %r at %r" % (worst, wat), {"max_abs": worst, "at": wat, "bound": bound}, True)
+            chk.fail("residue:lerpfactor inverts lerp", "fun_corr:lerpfactor(lerp)<%s>:residue" % tn,
+                     "lerpfactor (lerp (a, b, t), a, b) differs from t by %r x eps (|a|+|b|+|m|)/|b-a| at %r" % (worst, wat), {"max": worst, "at": wat, "bound": LFBOUND}, True)
 
     # ---- integer instantiations (not named by the property; three-way: plain build, sanitised build, Python integers)
     iv = [0, 1, -1, 2, -2, 7, 2 ** 30, -2 ** 30, INT_MAX - 1, INT_MAX, INT_MIN + 1, INT_MIN] + [rng.randint(INT_MIN, INT_MAX) for _ in range(3)]
@@ -881,7 +915,8 @@ def root_cases(rng):
         W = [Fraction(2) ** e * sg * mant for e in mags for sg, mant in ((1, 1), (-1, 3), (1, 5), (-1, 7), (1, 3))]
         trips = [t for t in itertools.combinations(W, 3) if min(abs(t[0] / t[1]), abs(t[1] / t[0])) < Fraction(1, 100) and
                  min(abs(t[1] / t[2]), abs(t[2] / t[1])) < Fraction(1, 100) and min(abs(t[0] / t[2]), abs(t[2] / t[0])) < Fraction(1, 100)]
-        for r3 in rng.sample(trips, min(60, len(trips))):
+        fixed = [(Fraction(1, 2 ** 20), Fraction(5, 2 ** 10), Fraction(3 * 2 ** 20))] if tyc == "d" else [(Fraction(1, 2 ** 10), Fraction(5, 2 ** 5), Fraction(3 * 2 ** 10))]
+        for r3 in fixed + rng.sample(trips, min(60, len(trips))):
             c = poly_from_roots(list(r3))
             cases.append(("rn", c[1:], sorted(set(r3)), "cubic3-wide:" + tyc))
             cases.append(("rc", [Fraction(2) ** 30 * x for x in c], sorted(set(r3)), "cubic3-wide:" + tyc))
@@ -892,9 +927,31 @@ def root_cases(rng):
 
 # accuracy bound (relative to max(1,|root|)) for polynomials with well-separated roots; the clean tree measures
 # <= 3e-15 (double) and <= 1.2e-6 (float); the cancellation defect repaired in 7563d4d measured 6e-11 / 2.3e-2
-RBOUND = {"d": 1e-12, "f": 2e-5}
-# model (textbook complex pow) vs implementation on the complex arm: clean-tree maximum 8.9e-16 / 9.5e-7 at seeds 1-3
-CTOL = {"d": 2e-14, "f": 2e-5}
+EPS = {"d": 2.0 ** -53, "f": 2.0 ** -24}
+# real arms (linear, quadratic, D > 0 cubic), error relative to max (1, |roots|): clean-tree maximum 4 eps (double) / 4 eps (float)
+RBOUND = {"d": 16 * EPS["d"], "f": 16 * EPS["f"]}
+# complex arm on well-scaled roots: clean-tree maximum 15 eps / 20 eps
+RBOUND_C = {"d": 64 * EPS["d"], "f": 64 * EPS["f"]}
+# model (textbook complex pow) vs implementation on the complex arm: clean-tree maximum 8.9e-16 (8 eps) / 9.5e-7 (16 eps) at seeds 1-3
+CTOL = {"d": 64 * EPS["d"], "f": 128 * EPS["f"]}
+# three-real-root cubics, ALL magnitudes: |error_i| <= NBOUND * eps * K_i, K_i = R^3 / prod_{j != i} |x_i - x_j|, R = max |root| (the condition
+# number of x_i under coefficient perturbations |da_k| <= eps R^(3-k): what a solver working on the depressed cubic can deliver);
+# clean-tree maximum 7.5 (double) / 8.9 (float) over 5 seeds
+LFBOUND = 4      # lerpfactor o lerp, in units of eps (|a| + |b| + |m|) / |b - a| (clean-tree maximum 1.85 over 5 seeds)
+CRT1 = 32 * 2.0 ** -53     # hsv2rgb_d (rgb2hsv_d (c)) - c: clean-tree maximum 4.5 eps
+CRT2 = 4                   # rgb2hsv_d (hsv2rgb_d (c)) - c in units of eps / s (clean-tree maximum 1.0 over 5 seeds)
+NBOUND = 16
+CWBOUND = 256    # componentwise reading: relative error of every root <= CWBOUND eps (the roots' componentwise condition numbers are <= 2.03)
+CW_CEILING = {"d": 0.15, "f": 0.08}   # share of wide three-real-root tuples with a wrong COUNT (all in the known-finding class): clean tree 8-12 % / 2-5 %
+WMODEL = 0.25    # wide cubics, hand model vs implementation, in units of eps K_max: clean-tree maximum 0.0034
+UNRES = 2        # unresolvable cubics: farthest value written from a true root, in units of sqrt (eps) R: clean-tree maximum 0.36
+# multiple roots (count not claimed): every value written within MULT_TOL * max (1, |roots|) of a true root (error ~ sqrt (eps))
+MULT_TOL = {"d": 2e-7, "f": 4e-3}     # clean-tree maximum 3.3e-8 / 4.0e-4 over 5 seeds
+
+
+def normwise_K(roots):
+    R = max(abs(float(r)) for r in roots)
+    return [R ** 3 / math.prod(abs(float(r - q)) for q in roots if q != r) for r in roots]
 # per-root RELATIVE bound for quadratics with widely spread roots: clean-tree maximum 2.3e-16 / 1.3e-7 (about one ulp)
 WBOUND = {"d": 4e-15, "f": 2e-6}
 
@@ -919,6 +976,11 @@ def check_roots(cx):
     corr_bad, spec_bad, defect = [], [], []
     resid = {"d": {"real": 0.0, "complex": 0.0}, "f": {"real": 0.0, "complex": 0.0}}
     mdiff = {"d": 0.0, "f": 0.0}
+    mdiff_w = {"d": 0.0, "f": 0.0}
+    nw = {ty: {"resolvable": 0, "unresolvable": 0, "unres_wrong_count": 0, "worst": 0.0, "worst_at": None, "unres_worst_sqrt": 0.0, "witness": None}
+          for ty in ("d", "f")}
+    mult = {ty: {"cases": 0, "count_differs": 0, "worst": 0.0} for ty in ("d", "f")}
+    cw_bad = {"d": [], "f": []}
     wide = {"d": {"quad": 0.0, "cubic": 0.0, "cubic_count_wrong": 0, "cubic_cases": 0}, "f": {"quad": 0.0, "cubic": 0.0, "cubic_count_wrong": 0, "cubic_cases": 0}}
     count_mismatch_double_roots = 0
     for i, (l, (cmd, ty, co, roots, cls)) in enumerate(zip(lines, meta)):
@@ -941,10 +1003,15 @@ def check_roots(cx):
                 vp, vq = dec(p), dec(q)
                 if not cls.startswith("cubic3-wide"):
                     mdiff[ty] = max(mdiff[ty], abs(vp - vq) / max(1.0, abs(vp)))
-                # the driver's complex pow is a textbook polar form, not glibc's: agreement to CTOL, 20x the clean-tree maximum
-                # (on the widely spread class the cubic is ill-conditioned and only the count is compared)
-                if abs(vp - vq) > CTOL[ty] * max(1.0, abs(vp)) and not cls.startswith("cubic3-wide"):
-                    corr_bad.append((i, "complex-branch root"))
+                    # the driver's complex pow is a textbook polar form, not glibc's: agreement to CTOL (about 8x the clean-tree maximum)
+                    if abs(vp - vq) > CTOL[ty] * max(1.0, abs(vp)):
+                        corr_bad.append((i, "complex-branch root"))
+                else:
+                    # widely spread roots: agreement commensurate with the normwise conditioning of the worst root
+                    kmax = max(normwise_K(roots))
+                    mdiff_w[ty] = max(mdiff_w[ty], abs(vp - vq) / (EPS[ty] * kmax))
+                    if abs(vp - vq) > WMODEL * EPS[ty] * kmax:
+                        corr_bad.append((i, "complex-branch root (wide)"))
         elif xi != xm:
             corr_bad.append((i, "roots"))
         # implementation vs mathematics
@@ -977,14 +1044,74 @@ def check_roots(cx):
             continue
         if not exact and cls in ("quad1", "cubic-triple", "cubic-double"):
             continue   # a multiple root is only present when the coefficients are exactly representable
-        if cls in ("cubic-double", "cubic-triple", "quad1") and n_impl != len(roots):
-            # multiple roots are not "well separated": D = 0 is decided by rounding; recorded, not claimed
-            count_mismatch_double_roots += 1
-            continue
-        if cls.startswith("cubic3-wide"):
-            wide[ty]["cubic_cases"] += 1
-            if n_impl != len(roots) or any(dec(t) != dec(t) for t in ia[1:1 + n_impl]):
-                wide[ty]["cubic_count_wrong"] += 1      # ill-conditioned: the sign of D is decided by rounding; recorded, not claimed
+        if cls in ("cubic-double", "cubic-triple", "quad1"):
+            # multiple roots are not "well separated": D = 0 is decided by rounding, so the COUNT is not claimed; what a caller can rely on:
+            # no NaN, at most deg values, every value written within MULT_TOL * scale of a true root
+            mult[ty]["cases"] += 1
+            valsm = [dec(t) for t in ia[1:1 + max(n_impl, 0)]]
+            scale_m = max([1.0] + [abs(float(r)) for r in roots])
+            deg = 2 if cmd == "rq" else 3
+            okm = 0 <= n_impl <= deg and all(v == v for v in valsm)
+            dist = max([min(abs(v - float(r)) for r in roots) for v in valsm] + [0.0]) / scale_m if okm else float("inf")
+            mult[ty]["worst"] = max(mult[ty]["worst"], dist)
+            if not okm or dist > MULT_TOL[ty]:
+                spec_bad.append((i, "multiple root: NaN / too many values / a value far from every root", dist))
+                continue
+            if n_impl != len(roots):
+                count_mismatch_double_roots += 1
+                mult[ty]["count_differs"] += 1
+                continue
+        if (cls == "cubic3" or cls.startswith("cubic3-wide")) and exact and len(roots) == 3:
+            # accuracy commensurate with the (normwise) conditioning, ALL magnitudes: see NBOUND
+            K = normwise_K(roots)
+            gaps = [min(abs(float(r - q)) for q in roots if q != r) for r in roots]
+            R = max(abs(float(r)) for r in roots)
+            resolvable = all(4 * NBOUND * EPS[ty] * k < g / 4 for k, g in zip(K, gaps))
+            valsn = [dec(t) for t in ia[1:1 + max(n_impl, 0)]]
+            wit = [str(r) for r in roots] in (["1/1048576", "5/1024", "3145728"], ["1/1024", "5/32", "3072"]) and cmd == "rn"
+            if wit:
+                nw[ty]["witness"] = {"roots": [float(r) for r in sorted(roots)], "componentwise_condition_numbers<=": 2.03,
+                                     "eps*K_i": [EPS[ty] * k for k in K], "resolvable": resolvable, "count_returned": n_impl, "values_returned": valsn,
+                                     "replay_cmd": cx.replay_cmd(l)}
+            if resolvable:
+                nw[ty]["resolvable"] += 1
+                cx.hit("roots:cubic3:normwise-resolvable:" + ty)
+                if n_impl != 3 or any(v != v for v in valsn):
+                    spec_bad.append((i, "count (three well-separated real roots, resolvable at the solver's normwise accuracy)", n_impl))
+                    continue
+                for g, (t, k) in zip(sorted(valsn), sorted(zip(roots, K))):
+                    q = abs(float(Fraction(g) - t)) / (EPS[ty] * k)
+                    if q > nw[ty]["worst"]:
+                        nw[ty]["worst"], nw[ty]["worst_at"] = q, l
+                    if q > NBOUND:
+                        spec_bad.append((i, "root accuracy (|error| > %d eps R^3 / prod |x_i - x_j|)" % NBOUND, q))
+                        break
+            else:
+                # two roots closer than the solver's normwise resolution at scale R (they look like a double root): count not claimed;
+                # still: no NaN, the largest root to NBOUND eps K, every value written within UNRES sqrt (eps) R of a true root
+                nw[ty]["unresolvable"] += 1
+                cx.hit("roots:cubic3:normwise-unresolvable:" + ty)
+                if n_impl != 3:
+                    nw[ty]["unres_wrong_count"] += 1
+                # the componentwise reading of the property (KNOWN FINDING class: three real roots, componentwise condition <= 2.03,
+                # not resolved at the solver's normwise accuracy): count 3 and every root to CWBOUND eps RELATIVE
+                cw_ok = n_impl == 3 and all(v == v for v in valsn) and \
+                    all(abs(Fraction(g) - t) <= CWBOUND * EPS[ty] * abs(t) for g, t in zip(sorted(valsn), sorted(roots)))
+                if not cw_ok:
+                    cw_bad[ty].append((i, wit))
+                big, kbig = max(zip(roots, K), key=lambda t: abs(t[0]))
+                okb = 1 <= n_impl <= 3 and all(v == v for v in valsn) and \
+                    min(abs(float(Fraction(v) - big)) for v in valsn) <= NBOUND * EPS[ty] * kbig
+                far = max(min(abs(v - float(r)) for r in roots) for v in valsn) / (math.sqrt(EPS[ty]) * R) if okb else float("inf")
+                nw[ty]["unres_worst_sqrt"] = max(nw[ty]["unres_worst_sqrt"], far)
+                if not okb or far > UNRES:
+                    spec_bad.append((i, "unresolvable cubic: NaN, largest root inaccurate, or a value farther than UNRES sqrt(eps) R from every root", far))
+            if cls.startswith("cubic3-wide"):
+                wide[ty]["cubic_cases"] += 1
+                if n_impl != 3 or any(v != v for v in valsn):
+                    wide[ty]["cubic_count_wrong"] += 1
+                    continue
+            elif n_impl != 3:
                 continue
         if n_impl != len(roots):
             spec_bad.append((i, "count", n_impl))
@@ -1006,9 +1133,9 @@ def check_roots(cx):
                 wide[ty]["cubic"] = max(wide[ty]["cubic"], rel)
             continue
         scale = max([1.0] + [abs(float(r)) for r in roots])
-        bound = RBOUND[ty] * scale
+        bound = (RBOUND_C if br in (2, 3) else RBOUND)[ty] * scale
         if cls in ("cubic-double",):
-            bound = (1e-5 if ty == "d" else 5e-2) * scale    # double root: error ~ sqrt(eps)
+            bound = MULT_TOL[ty] * scale    # double root: error ~ sqrt(eps)
         got = sorted(vals)
         want = sorted(float(r) for r in roots)
         err = max(abs(g - t) for g, t in zip(got, want)) if got else 0.0
@@ -1020,20 +1147,63 @@ def check_roots(cx):
     chk.count(len(lines), len(lines))
     chk.oblige("corr:roots:model=impl(%d coefficient tuples x float,double; complex branch by count+tolerance)" % len(cases),
                "correspondence", not corr_bad)
-    chk.oblige("spec:roots:count-and-accuracy(well-separated roots)", "correspondence", not spec_bad and not defect)
+    chk.oblige("spec:roots:count-and-accuracy(well-separated roots; three-real-root cubics of all magnitudes to %d eps x normwise condition, count "
+               "whenever resolvable; multiple / unresolvable roots: no NaN, values near roots)" % NBOUND, "correspondence", not spec_bad and not defect)
+    # KNOWN FINDING (coordinator decision): the componentwise reading fails on the normwise-unresolvable class
+    name_cw = ("spec:roots:cubic: three real roots of widely different magnitude (componentwise condition <= 2.03, not resolved at the solver's "
+               "normwise accuracy): count 3 and every root to %d eps relative" % CWBOUND)
+    anybad = cw_bad["d"] + cw_bad["f"]
+    chk.oblige(name_cw, "correspondence", not anybad)
+    if anybad:
+        wl = [i for i, wit in cw_bad["d"] if wit] or [i for i, wit in anybad if wit] or [anybad[0][0]]
+        i = wl[0]
+        cmd, ty, co, roots, cls = meta[i]
+        rep = {"line": lines[i], "coefficients": [str(c) for c in co], "true_roots": [float(r) for r in sorted(roots)],
+               "implementation(count roots)": a[i], "values_returned": [(u2d if ty == "d" else u2f)(int(t, 16)) for t in a[i].split()[1:]],
+               "componentwise_condition_numbers<=": 2.03, "eps*K_i(normwise)": [EPS[ty] * k for k in normwise_K(roots)],
+               "tuples_of_the_class_in_this_run": {t: nw[t]["unresolvable"] for t in ("d", "f")},
+               "failing_tuples_of_the_class": {t: len(cw_bad[t]) for t in ("d", "f")},
+               "others": [lines[j] for j, _ in anybad[:8]], "replay_cmd": cx.replay_cmd(lines[i])}
+        chk.fail(name_cw, "fun_corr:solveCubic:wide-magnitude-roots:not-componentwise-accurate",
+                 "solveNormalizedCubic/solveCubic: roots %s are well separated and each is determined to ~2 eps by the coefficients, yet the solver returns %s "
+                 "(accurate only to the normwise conditioning R^3/prod|x_i-x_j|)" % (rep["true_roots"], a[i]), rep, True)
+    # ... and a ceiling, under its own key, so that the known finding cannot hide a regression: wrong counts stay a bounded share of the wide tuples
+    for ty in ("d", "f"):
+        tot = max(1, wide[ty]["cubic_cases"])
+        share = wide[ty]["cubic_count_wrong"] / tot
+        okc = share <= CW_CEILING[ty]
+        nm = "spec:roots:cubic: wrong-count share of the wide three-real-root tuples stays below %.0f %% (%s; all of them in the known-finding class)" % (
+            100 * CW_CEILING[ty], "double" if ty == "d" else "float")
+        chk.oblige(nm, "correspondence", okc, None if okc else "%d of %d" % (wide[ty]["cubic_count_wrong"], tot))
+        if not okc:
+            chk.fail(nm, "fun_corr:solveCubic:wide-magnitude-roots:wrong-count-share-above-ceiling:%s" % ty,
+                     "wrong root counts on %d of %d widely spread three-real-root cubics (ceiling %.0f %%)" % (wide[ty]["cubic_count_wrong"], tot, 100 * CW_CEILING[ty]),
+                     {"wrong": wide[ty]["cubic_count_wrong"], "tuples": tot}, False)
+    chk.extra["cubic_normwise_only(not componentwise)"] = {
+        "statement": "solveNormalizedCubic/solveCubic work on the depressed cubic: each root is accurate to NBOUND eps K_i, K_i = R^3/prod|x_i-x_j| (its condition "
+                     "number under coefficient perturbations eps R^(3-k)), NOT to its componentwise conditioning (<= 2.03 for every generated tuple); two roots "
+                     "closer than about 16 sqrt(eps) R to each other are not resolved (count 1 or 2, or values off by more than the roots themselves)",
+        "witness(double)": nw["d"]["witness"], "witness(float)": nw["f"]["witness"]}
     chk.extra["roots_multiple_root_count_differs(not claimed)"] = count_mismatch_double_roots
     for ty in ("d", "f"):
         tn = "double" if ty == "d" else "float"
         chk.residues["roots:%s:solveQuadratic, roots spread over 2^+-%d, leading coefficient 2^+-30: max RELATIVE error of any root" % (tn, 20 if ty == "d" else 10)] = {
             "max": wide[ty]["quad"], "bound": WBOUND[ty]}
-        chk.residues["roots:%s:cubic solvers, roots spread over 2^+-%d: max relative error of any root (MEASURED; Cardano is not accurate root by root, not claimed)"
+        chk.residues["roots:%s:cubic solvers, roots spread over 2^+-%d: max RELATIVE error of any root (recorded: the solver's accuracy is normwise, not componentwise)"
                      % (tn, 20 if ty == "d" else 10)] = {"max": wide[ty]["cubic"], "count_wrong_or_nan(recorded)": "%d of %d" % (wide[ty]["cubic_count_wrong"], wide[ty]["cubic_cases"])}
         chk.residues["roots:%s:complex-branch cubic, hand model (textbook complex pow) vs implementation: max relative difference" % tn] = {
             "max": mdiff[ty], "tolerance": CTOL[ty]}
+        chk.residues["roots:%s:three-real-root cubics of ALL magnitudes, resolvable class: max |error_i| / (eps R^3 / prod |x_i - x_j|)" % tn] = {
+            "max": nw[ty]["worst"], "bound": NBOUND, "at": nw[ty]["worst_at"], "tuples": nw[ty]["resolvable"], "count_wrong": 0}
+        chk.residues["roots:%s:three-real-root cubics, UNRESOLVABLE at normwise accuracy (count not claimed): farthest value from a root / (sqrt (eps) R)" % tn] = {
+            "max": nw[ty]["unres_worst_sqrt"], "bound": UNRES, "tuples": nw[ty]["unresolvable"], "count_not_3(recorded)": nw[ty]["unres_wrong_count"]}
+        chk.residues["roots:%s:wide cubics, hand model vs implementation: max difference / (eps K_max)" % tn] = {"max": mdiff_w[ty], "bound": WMODEL}
+        chk.residues["roots:%s:multiple roots (count not claimed): farthest value written from a true root / max (1, |roots|)" % tn] = {
+            "max": mult[ty]["worst"], "bound": MULT_TOL[ty], "tuples": mult[ty]["cases"], "count_differs(recorded)": mult[ty]["count_differs"]}
         chk.residues["roots:%s:max relative root error, real branches" % ("double" if ty == "d" else "float")] = {
             "max": resid[ty]["real"], "bound": RBOUND[ty]}
         chk.residues["roots:%s:max relative root error, complex-branch cubic (MEASURED, not proved)" % ("double" if ty == "d" else "float")] = {
-            "max": resid[ty]["complex"], "bound": RBOUND[ty]}
+            "max": resid[ty]["complex"], "bound": RBOUND_C[ty]}
     for i, what in corr_bad[:3]:
         chk.fail("corr:roots", "model-vs-impl:" + lines[i].replace(" ", ","), "root solver: implementation differs from model (%s)" % what,
                  {"line": lines[i], "coefficients": [str(c) for c in meta[i][2]], "implementation": a[i], "model(count branch roots)": b[i],
@@ -1185,21 +1355,23 @@ def check_colour(cx):
         e = max(abs(got[0] - x), abs(got[1] - y), abs(got[2] - z))
         if not e <= worst:
             worst, wi = e, (x, y, z, got)
-    chk.residues["hsv2rgb_d(rgb2hsv_d(c)) - c on the unit cube (double)"] = {"max_abs": worst, "bound": 1e-12}
-    okrt = worst <= 1e-12
+    chk.residues["hsv2rgb_d(rgb2hsv_d(c)) - c on the unit cube (double)"] = {"max_abs": worst, "bound": CRT1, "in_eps": worst / EPS["d"]}
+    okrt = worst <= CRT1
     # and rgb2hsv(hsv2rgb c) = c with the conventions
     conv = [(h, s, v) for (h, s, v) in hsv if 0 <= h < 1 and s > 0 and v > 0]
     rc, o = run_lines(cx.binary, ["h2r3 %s %s %s" % (hd(h), hd(s), hd(v)) for (h, s, v) in conv], "rt3")
     rc2, o2 = run_lines(cx.binary, ["r2h3 " + l for l in o], "rt4")
-    worst2, wi2 = 0.0, None
+    worst2, wi2, worst2_abs = 0.0, None, 0.0
     for (h, s, v), l in zip(conv, o2):
         got = [u2d(int(t, 16)) for t in l.split()]
         dh = abs(got[0] - h); dh = min(dh, abs(dh - 1))    # hue is circular: 0.999999 may come back as ~1e-17 short of it
-        e = max(dh, abs(got[1] - s), abs(got[2] - v))
+        # conditioning: the hue / saturation of a colour with range s v are determined to eps / s (rgb errors eps v over the range v s)
+        e = max(dh, abs(got[1] - s), abs(got[2] - v)) * s / EPS["d"]
+        worst2_abs = max(worst2_abs, max(dh, abs(got[1] - s), abs(got[2] - v)))
         if not e <= worst2:
             worst2, wi2 = e, (h, s, v, got)
-    chk.residues["rgb2hsv_d(hsv2rgb_d(c)) - c, 0<=h<1, s>0, v>0 (double)"] = {"max_abs": worst2, "bound": 1e-9}
-    okrt2 = worst2 <= 1e-9
+    chk.residues["rgb2hsv_d(hsv2rgb_d(c)) - c, 0<=h<1, s>0, v>0 (double), in units of eps / s"] = {"max": worst2, "bound": CRT2, "max_abs": worst2_abs}
+    okrt2 = worst2 <= CRT2
     grey = ["h2r3 %s %s %s" % (hd(h), hd(0.0), hd(v)) for h in hs for v in (0.0, 0.4, 1.0)]
     rc, o = run_lines(cx.binary, grey, "grey")
     okg = all(len(set(l.split())) == 1 for l in o)
@@ -1474,6 +1646,12 @@ def run(chk):
         "IsFloor: int(std::floor(y)) is the exact floor",
         "sqrt/pow/copysign/complex sqrt/complex pow return exact values at the arguments the code passes (hypotheses of the "
         "root theorems; for the double-root count also: pow returns the PRINCIPAL complex cube root); rounding is measured (residues), not proved",
+        "the D <= 0 cubic count theorems _three_distinct / _double_root / _complex_roots additionally assume an IDEAL sqrt3 (sqrt3^2 = 3), which the "
+        "source's rational literal does not satisfy: they are about the algorithm; the code-level statements are "
+        "solveNormalizedCubic_complex_any_sqrt3 and gen_solveNormalizedCubic_three_literal (explicit residual in lit^2 - 3)",
+        "cubic accuracy is obliged relative to the NORMWISE conditioning R^3/prod|x_i-x_j|; against the COMPONENTWISE conditioning the solver fails "
+        "on tuples not resolved at that accuracy (open known finding fun_corr:solveCubic:wide-magnitude-roots:not-componentwise-accurate); "
+        "multiple roots carry no count claim",
         "signed overflow is modelled as two's-complement wrap-around only to RECORD behaviour outside the no-overflow guard; inside the "
         "property's domain the UBSan build shows there is none",
         "ceil on doubles in (2^31-1, 2^31): the mathematical result 2^31 is not an int; outside the property (theorem ceil_result_not_representable)"]
@@ -1483,7 +1661,9 @@ def run(chk):
                 "random (quick) or all 2^32 by block hash + bisection (thorough); doubles: boundary exponents incl. both 2^31 edges, plain AND UBSan builds "
                 "vs the machine-int model; ints: all pairs over a boundary-heavy value set incl. INT_MIN, +-(2^31-1), +-2^30(+1), 2^16+-1, one function per "
                 "call under UBSan; scalars: sampled product grid + deterministic boundary equalities (|a-b| = t, |a| = t, a = l, a = h, |n| = max|d|) + int and "
-                "unsigned instantiations; roots: polynomials expanded exactly (Fractions) from chosen integer/dyadic roots, every branch, + quadratics with "
+                "unsigned instantiations; ints additionally ALL pairs of [-130,130]^2 and the int extremes x [-64,64] (line protocol, both builds) and all of "
+                "[-2048,2048]^2 inside the harness; roots: polynomials expanded exactly (Fractions) from chosen integer/dyadic roots, every branch, + cubics "
+                "with three real roots spread over 2^+-20 judged by their normwise conditioning + quadratics with "
                 "roots spread over 2^+-20 and full-width mantissas (reference roots by 200-bit isqrt); colour: 5^3 lattice + random rgb + near-wrap hues, hue "
                 "sextant boundaries x {0,.5,1}^2 + random hsv, grey axis, hue wrap, all four wrappers at float/double/5 integer element types; "
                 "ALL 2^32 packed words. Non-trivial = every case except exact zeros.")
@@ -1530,6 +1710,11 @@ def run(chk):
         check_roots(cx)
         check_colour(cx)
         chk.extra["branch_hits"] = dict(sorted(cx.hits.items()))
+        chk.extra["exhaustive_parts(the property as a whole is sampled: `exhaustive` stays false)"] = [
+            "all 2^32 floats x floor/ceil/trunc/finitef/succf/predf: real code vs integer-only spec (both tiers); model = real code by block hash (thorough only)",
+            "all 2^32 packed words (Color4<float>) and 2^24 (Vec3<float>): rgb2packed o packed2rgb (both tiers)",
+            "every alpha value of uchar/short/ushort (both tiers), int/uint (thorough only)",
+            "all int pairs of [-2048,2048]^2 (harness, both builds) and of [-130,130]^2 + extremes grid (line protocol, model, sanitizer)"]
         chk.sample({"call": "floor(-2.5f)", "result": -3})
         chk.sample({"call": "divp(-7,2), modp(-7,2)", "result": [-4, 1]})
         chk.sample({"call": "solveNormalizedCubic(0,0,1)", "true_root": -1, "note": "p=0,q>0: u=0"})
